@@ -170,11 +170,13 @@ fn one_case(seed: u64, i: u64) -> CaseOut {
         out.violate(format!("C12/panic/{}", a.panic_file()), i, a.short(), detail(""));
         return out;
     }
-    // the real load-time memory must itself be the model's (C03 checks this in depth)
-    if sess.init_mem[..] != load.mem[..] {
-        out.inconclusive = Some("load-time memory differs from the model (see C03)".into());
-        return out;
-    }
+    // words in which the memory captured before run() differs from the model's load state: they
+    // count as "changed" too, so that the comparison below is against the *model's* loaded machine
+    let load_skew: Vec<(u16, u16)> = if sess.init_mem[..] != load.mem[..] {
+        (0..0x10000usize).filter(|&a| sess.init_mem[a] != load.mem[a]).map(|a| (a as u16, sess.init_mem[a])).collect()
+    } else {
+        Vec::new()
+    };
     // ---- snapshot right after each reset
     let mut dirty_before = false;
     for (k, &rl) in reset_lines.iter().enumerate() {
@@ -200,11 +202,22 @@ fn one_case(seed: u64, i: u64) -> CaseOut {
             why = Some(format!("PC x{:04X}, load-time x{:04X}", s.pc, load.pc));
         } else if s.cc != 0 {
             why = Some(format!("CC {:03b}, load-time none", s.cc));
-        } else if !s.mem_diff.is_empty() {
-            let (a, w) = s.mem_diff[0];
+        } else if !s.mem_diff.is_empty() || !load_skew.is_empty() {
+            // actual memory = captured + diff; compare with the model's load state
+            let mut diffs: Vec<(u16, u16)> = Vec::new();
+            for (a, w) in s.mem_diff.iter().chain(load_skew.iter()) {
+                let actual = s.mem_diff.iter().find(|(x, _)| x == a).map(|(_, v)| *v).unwrap_or(*w);
+                if actual != load.mem[*a as usize] && !diffs.iter().any(|(x, _)| x == a) {
+                    diffs.push((*a, actual));
+                }
+            }
+            if diffs.is_empty() {
+                continue;
+            }
+            let (a, w) = diffs[0];
             why = Some(format!(
                 "{} memory words differ from load time, e.g. mem[x{:04X}] = x{:04X} (loaded x{:04X})",
-                s.mem_diff.len(),
+                diffs.len(),
                 a,
                 w,
                 load.mem[a as usize]
